@@ -26,13 +26,20 @@ CLASSES = [
 ]
 
 
-def some_pair_in(f, blocks):
+def some_pair_in(f, blocks, prog=None):
     """the (a, b) of `Some((a, b))` built in the region, None-only regions give None"""
     pairs = set()
     none = False
     for bi in blocks:
         for s in f.blocks[bi]["stmts"]:
             rv = s["rv"]
+            if prog is not None and rv.get("r") in ("agg", "use"):
+                # Some(NAMED_PAIR) / let p = NAMED_PAIR: a named constant of two integers
+                for o in rv.get("o") or []:
+                    k = op_const(o)
+                    c = prog.consts.get(k.get("cdef")) if k and k.get("cdef") else None
+                    if c is not None and isinstance(c["v"], list) and len(c["v"]) == 2:
+                        pairs.add((c["v"][0], c["v"][1]))
             if rv.get("r") == "agg" and rv.get("akind") == "tuple" and len(rv["o"]) == 2:
                 ks = [op_const(o) for o in rv["o"]]
                 if all(k is not None and "v" in k for k in ks):
@@ -50,7 +57,7 @@ def binding_table(p):
     top = sw[0]
     table = {}
     for tok, tgt in top[2].items():
-        pairs, none = some_pair_in(f, dominated(f, tgt))
+        pairs, none = some_pair_in(f, dominated(f, tgt), p)
         table[tok] = pairs
     return f, table
 
@@ -223,7 +230,16 @@ def check(cx):
     fi = cx.guard(r2, "parse_infix", p.method, PARSER, "parse_infix")
     if fi and got:
         sw = [x for x in enum_switches(p, fi) if x[1] == TOKEN]
-        inf = set(sw[0][2]) if sw else set()
+        # every match on the token: nested matches of parse_infix itself and, on the inlined view, the matches of a lookup
+        # helper on its token parameter (not the matches of the sub-parsers on what they read next)
+        org = getattr(fi, "origins", None)
+
+        def dispatch(x):
+            if org is None or org[x[0]][0] == fi.id:
+                return True
+            _, lb, n = org[x[0]]
+            return lb < x[4][0] <= lb + n and all(pe == "*" for pe in x[4][1:])
+        inf = set().union(*[set(x[2]) for x in sw if dispatch(x)]) if sw else set()
         have = {t for t, pr in got[1].items() if pr}
         cx.verdict(inf == have, r2, "token-sets-equal", fi.where(), "%d tokens on both sides" % len(have),
                    "binding powers for %s without parse_infix arm; parse_infix arms for %s without power" % (
@@ -323,12 +339,15 @@ def check(cx):
         f = cx.guard(r4, "%s::%s" % (adt, name), p.method, adt, name)
         if not f:
             continue
-        sws = [x for x in enum_switches(p, f) if x[1] == enum]
+        # the dispatch is in the entry point or in a method of the same type it reaches (evaluate -> eval_scalar_function)
+        cands = [f] + [g for g in (p.raw_fns.get(x) for x in sorted(p.reach_forward([f.id]))) if g is not None and g.id != f.id
+                       and g.impl_adt == f.impl_adt and g.kind != "closure"]
+        sws = [(x, g) for g in cands for x in enum_switches(p, g) if x[1] == enum]
         if not sws:
             cx.bad(r4, "%s:%s:no-match" % (name, enum), f.where(), "no match on %s in %s" % (enum, f.id))
             continue
         # the widest switch is the dispatch
-        bi, _, m, oth, _ = max(sws, key=lambda x: len(x[2]))
+        (bi, _, m, oth, _), f = max(sws, key=lambda x: (len(x[0][2]), x[1] is f))
         for v in p.enum_variants(enum):
             t = m.get(v["name"], oth)
             pan = core.diverges(f, t)
